@@ -194,5 +194,48 @@ func c11Probe(di int) []string {
 	if pn := guard(func() { _ = mk(tbl).Resolve(d[0] + nested + d[1]) }); pn != "" {
 		fail = append(fail, "34 placeholders nested in keys panicked: "+pn)
 	}
+	// placeholders whose text between prefix and suffix is long: a long default, a default made of many placeholders, a long key
+	long := strings.Repeat("jdbc:postgresql://db.example.org:5432/", 9) // 342 bytes
+	longKey := strings.Repeat("segment.", 40) + "end"                   // 323 bytes
+	many := strings.Repeat(d[0]+"a"+d[1], 100)
+	for _, c := range [][2]string{
+		{d[0] + "url" + d[2] + long + d[1] + "|" + d[0] + "a" + d[1], long + "|A"},
+		{d[0] + "nope" + d[2] + many + d[1] + "!", strings.Repeat("A", 100) + "!"},
+		{"_" + d[0] + longKey + d[1] + "_" + d[0] + "a" + d[1], "_V_A"},
+		{d[0] + "a" + d[1] + strings.Repeat("x", 600) + d[0] + "a" + d[1], "A" + strings.Repeat("x", 600) + "A"},
+		{d[0] + "nope" + d[2] + strings.Repeat("y", 255-len(d[2])-4) + d[1], strings.Repeat("y", 255-len(d[2])-4)},
+		{d[0] + "nope" + d[2] + strings.Repeat("y", 256) + d[1], strings.Repeat("y", 256)},
+		{d[0] + "nope" + d[2] + strings.Repeat("y", 70000) + d[1], strings.Repeat("y", 70000)},
+	} {
+		var out string
+		if pn := guard(func() { out = mk(map[string]string{"a": "A", longKey: "V"}).Resolve(c[0]) }); pn != "" {
+			fail = append(fail, fmt.Sprintf("Resolve of a %d-byte placeholder panicked: %s", len(c[0]), pn))
+		} else if out != c[1] {
+			fail = append(fail, fmt.Sprintf("Resolve(%.60q… %d bytes) = %.60q… (%d bytes), expected %.60q… (%d bytes)", c[0], len(c[0]), out, len(out), c[1], len(c[1])))
+		}
+	}
+	// a lookup function that reads a document by path: the known keys are the paths of its leaves and nothing else
+	doc := anyToContainer(map[string]any{"host": "localhost", "suffix": "", "app": map[string]any{"name": "demo"}})
+	byPath := props.Builder().Prefix(d[0]).Suffix(d[1]).ValueSeparator(d[2]).LookupFunc(func(k string) *string {
+		if n := doc.Lookup(k); n != nil && n.IsLeaf() {
+			v := fmt.Sprint(n.(dom.Leaf).Value())
+			return &v
+		}
+		return nil
+	}).MustBuild()
+	ph := func(body string) string { return d[0] + body + d[1] }
+	for _, c := range [][2]string{
+		{ph("host"), "localhost"}, {ph("app.name"), "demo"},
+		{ph("host."), ph("host.")}, {ph(".host"), ph(".host")}, {ph("app..name"), ph("app..name")},
+		{ph("host." + d[2] + "dflt"), "dflt"}, {ph("app.name." + ph("suffix")), ph("app.name." + ph("suffix"))},
+		{ph("app." + ph("nope"+d[2]+"name")), "demo"}, {ph("app"), ph("app")},
+	} {
+		var out string
+		if pn := guard(func() { out = byPath.Resolve(c[0]) }); pn != "" {
+			fail = append(fail, fmt.Sprintf("Resolve(%q) over a document panicked: %s", c[0], pn))
+		} else if out != c[1] {
+			fail = append(fail, fmt.Sprintf("Resolve(%q) with a lookup function reading a document by path = %q, expected %q", c[0], out, c[1]))
+		}
+	}
 	return fail
 }
